@@ -548,6 +548,17 @@ func legitAck(w *world.World, p packettypes.Packet, ack []byte, at string, proof
 	return ok && bytes.Equal(h, sha(ack))
 }
 
+// relayTarget says which chain an edited relay-chain field names, relative to the original packet.
+func relayTarget(orig, q packettypes.Packet) string {
+	switch q.RelayChain {
+	case orig.SourceChain:
+		return "source"
+	case orig.DestinationChain:
+		return "destination"
+	}
+	return "third-chain"
+}
+
 // roleSuffix says where an altered packet was accepted: the role of chain at in the ORIGINAL packet's route, and for
 // port edits the port it was redirected to.
 func roleSuffix(orig, q packettypes.Packet, at string) string {
@@ -601,11 +612,11 @@ func (m *PktModel) recvProbes(w *world.World, g Ghost, p packettypes.Packet, at 
 			if orig.P.RelayChain != q.RelayChain {
 				switch {
 				case orig.P.RelayChain == "":
-					alt = "relay-added"
+					alt = "relay-added(" + relayTarget(orig.P, q) + ")"
 				case q.RelayChain == "":
 					alt = "relay-removed"
 				default:
-					alt = "relay-replaced"
+					alt = "relay-replaced(" + relayTarget(orig.P, q) + ")"
 				}
 			}
 			pr.MustFail, pr.Signature = "C13", "recv-accepted-with-altered-"+alt+roleSuffix(orig.P, q, at)
@@ -763,11 +774,11 @@ func (m *PktModel) ackProbes(w *world.World, g Ghost, p packettypes.Packet, at s
 			if orig.P.RelayChain != q.RelayChain {
 				switch {
 				case orig.P.RelayChain == "":
-					alt = "relay-added"
+					alt = "relay-added(" + relayTarget(orig.P, q) + ")"
 				case q.RelayChain == "":
 					alt = "relay-removed"
 				default:
-					alt = "relay-replaced"
+					alt = "relay-replaced(" + relayTarget(orig.P, q) + ")"
 				}
 			}
 			pr.MustFail, pr.Signature = "C13", "ack-accepted-with-altered-"+alt+roleSuffix(orig.P, q, at)
